@@ -26,6 +26,9 @@ structure VoteInput where
   extra : Bytes
   /-- result of `MakeTxParam.Deserialization(extra)` -/
   decoded : Option MakeTxParam
+  /-- eth router only: the storage proof verifies against the synced header and commits to `extra`
+  (an oracle value supplied with the input; the eth verification itself is C23) -/
+  proofValid : Bool := false
 
 /-- serialization of the `unique` EntranceParam (proof, relayer address and header are empty) -/
 def voteIdPreimage (src height : Nat) (extra : Bytes) : Bytes :=
@@ -54,7 +57,10 @@ def voteVerify (H : Bytes → Bytes) (aux : VoteAux) (inp : VoteInput) : Verdict
     else
       .pending (if flag then { aux with tallies := putAssoc aux.tallies id (false, voters') } else aux)
 
-/-- Oracles of the driver: the vote router is the model above; the ripple router collects votes in the same tallies
+def ETH_ROUTER : Nat := 2
+
+/-- Oracles of the driver: the vote router is the model above; the eth router accepts exactly the inputs whose
+storage proof the harness built validly (`proofValid`); the ripple router collects votes in the same tallies
 and, once the quorum is reached, needs asset-binding records that the harness never plants (so it fails: with
 `done` when the message is already marked, otherwise in the binding lookup); every other router rejects (the
 harness feeds them inputs without valid proofs); the BTC / ripple transaction builders fail on the harness' inputs. -/
@@ -65,6 +71,12 @@ def voteOracles (H : Bytes → Bytes) : Oracles VoteAux VoteInput where
       match voteVerify H s.aux inp with
       | .accept p _ => if (inp.src, p.crossChainID) ∈ s.done then .reject "done" else .reject "verify"
       | v => v
+    else if router = ETH_ROUTER then
+      if inp.proofValid then
+        match inp.decoded with
+        | some p => .accept p s.aux
+        | none => .reject "verify"
+      else .reject "verify"
     else .reject "verify"
   btcMake _ _ _ _ := none
   rippleMake _ _ _ _ := none
